@@ -226,6 +226,9 @@ func (h *host) register() {
 		h.fnLog = append(h.fnLog, "noret()")
 		return nil, nil
 	})
+	h.dr.AddFunction("eoferr", func(args []*variable.Value) (*variable.Value, error) {
+		return nil, fmt.Errorf("reading the save file: %w", io.EOF)
+	})
 	h.dr.AddFunction("boom", func(args []*variable.Value) (*variable.Value, error) {
 		panic("the host function panics")
 	})
